@@ -103,7 +103,7 @@ def parseControlFile (data : Bytes) : M (Option ControlFile) := do
       let maxPreparedXacts := toSigned 32 (← uN 4 data (configOffset + 12))
       let maxLocksPerXact := toSigned 32 (← uN 4 data (configOffset + 16))
       let walLevelN ← uN 4 data (configOffset - 8)
-      let walLevel := if walLevelN < walLevelNames.length then walLevelNames.getD walLevelN "" else ""
+      let walLevel := walLevelName walLevelN
       let walLogHints := (← uN 1 data (configOffset - 4)) != 0
       let trackCommitTS := (← uN 1 data (configOffset + 20)) != 0
       pure { maxConnections, maxWorkerProcesses, maxWALSenders, maxPreparedXacts, maxLocksPerXact,
